@@ -445,7 +445,16 @@ def counting_increment_rule(chk, prog, roles, rule="COUNT"):
             continue
         fa = emitter_facts(prog, roles, em)
         for m, parents in walk_with_parents(prog.body(f)):
-            if m.get("kind") == "UnaryOperator" and m.get("opcode") == "++" and _norm(kids(m)[0]) == "*" + cp[0]:
+            changes = (m.get("kind") in ("CompoundAssignOperator", "BinaryOperator") and m.get("opcode", "").endswith("=") and
+                       m.get("opcode") not in ("==", "!=", "<=", ">=") and _norm(kids(m)[0]) == "*" + cp[0])
+            if changes or (m.get("kind") == "UnaryOperator" and m.get("opcode") == "--" and _norm(kids(m)[0]) == "*" + cp[0]):
+                one = m.get("opcode") == "+=" and ConstEval(prog).try_eval(kids(m)[1]) == 1
+                if not one:
+                    n += 1
+                    chk.bad(rule, "%s/%s/step" % (rule, em), loc_str(m), "the break counter only ever grows by exactly one per instruction", expr_str(m))
+                    continue
+            if (m.get("kind") == "UnaryOperator" and m.get("opcode") == "++" and _norm(kids(m)[0]) == "*" + cp[0]) or \
+                    (changes and m.get("opcode") == "+="):
                 n += 1
                 guard = None
                 for p in reversed(parents):
@@ -475,6 +484,7 @@ def c13_rules(chk, prog):
     chk.floor("padding-writer bounds obligations", n, 1)
     emitter_shape_rules(chk, prog, roles, want=("DEST", "GRID"), rule="GRID")
     PL.encoder_idempotence_rule(chk, prog, roles)
+    PL.restore_rule(chk, prog, roles, rule="KEEP", fields=("assembly_mode", "chunk_size"))
     setter_mode_rule(chk, prog)
     counting_mode_rule(chk, prog, roles)
     division_sites_rule(chk, prog, roles)
